@@ -228,7 +228,7 @@ Proof.
   rewrite (low_mask_test' u64 32 x) by (try reflexivity; lia).
   destruct (Z.eqb_spec (x mod 2 ^ 32) 0) as [E|E]; cbn [negb].
   - (* the low half is zero: the answer is in the high half *)
-    monad_run. rewrite cast_u32, Z.shiftr_div_pow2 by lia.
+    rewrite c_shr_ok by reflexivity. cbn [obind]. rewrite cast_u32, Z.shiftr_div_pow2 by lia.
     assert (Hh : 0 <= x / 2 ^ 32 < 2 ^ 32).
     { split; [apply Z.div_pos; lia|apply Z.div_lt_upper_bound; lia]. }
     rewrite (Z.mod_small (x / 2 ^ 32)) by assumption.
